@@ -40,7 +40,7 @@ RULE = ("seeded random pairs of (runtime module, stubs) sources built jointly pe
         "attribute / function / class / import on each side (55% same kind, 25% mismatched kind, stub-only and runtime-only "
         "names), classes nest to depth 3, functions get 0-3 parameters with annotations from disjoint vocabularies (R*, S*), "
         "docstrings present or missing on either side, stubs carry @overload groups with or without implementation and with or "
-        "without a runtime member of that name; classes derive (1-2 bases) from class expressions visible per Python scoping "
+        "without a runtime member of that name, runtime functions too may exist as @overload signatures only; classes derive (1-2 bases) from class expressions visible per Python scoping "
         "- earlier module classes and their nested classes (dotted), earlier classes of the same class body, classes imported "
         "from a generated un-stubbed module pkg._impl (B1, B2(B1) with members named from every nested pool) - or from an "
         "undefined name; a runtime class that derives declares fewer names itself, so its stubs name inherited members; two "
@@ -52,7 +52,10 @@ LEVEL_TEXT = ("Each generated pair is written to disk in every placement and loa
               "member by member with the expectation derived from the two sources (runtime members kept with their kind, "
               "stub annotations / returns / overload lists on same-kind members, runtime docstring unless missing, stub-only "
               "members added with runtime=False - also when the runtime class inherits that name -, mismatched kinds untouched, "
-              "no exception), the un-stubbed module pkg._impl that holds imported base classes is compared the same way with "
+              "no exception; the `overloads` dict of every stub-only class - at any depth, in top-level modules, which the loader "
+              "merges twice, and in sub-modules - must hold exactly the @overload-only functions of the stub source, and a runtime "
+              "scope keeps its own), through the API the same pair is merged a second time and judged again (idempotence: same "
+              "expectation, same canonical JSON), the un-stubbed module pkg._impl that holds imported base classes is compared the same way with "
               "an empty stub side (a member the stubs say nothing about must not change), canonical JSON must be equal "
               "across orders, and every Alias.resolve_target call made while merge_stubs is on the stack (explicit merge in "
               "_load_package, implicit merge in set_member, direct API call) must be on a runtime-side import that has a "
@@ -68,7 +71,9 @@ REQUIRED_COUNTERS = ["placements_judged", "runtime_members_checked", "same_kind_
                      "orders_compared", "alias_resolution_windows", "merge_stubs_calls_in_window", "aliases_state_checked", "nested_class_pairs_checked",
                      "merge_into_alias_target_seen", "listings_with_py_pyi_pair_stub_first",
                      "listings_with_py_pyi_pair_runtime_first", "bystander_modules_judged", "merged_classes_inheriting_names",
-                     "inherited_name_stub_overloads_only", "inherited_name_stub_member", "stub_overloads_only_no_runtime_member"]
+                     "inherited_name_stub_overloads_only", "inherited_name_stub_member", "stub_overloads_only_no_runtime_member",
+                     "stub_only_scopes_overload_dict_checked", "stub_only_overload_only_functions_checked",
+                     "runtime_overload_only_functions_checked", "modules_merged_twice_by_loader", "api_second_merges_judged"]
 EXHAUSTIVE = {"quick": False, "thorough": False}
 ASSUMPTIONS = ["the alias monitor's window is the dynamic extent of merge_stubs (every reference to it in merger, loader and mixins "
                "is wrapped); what the loader resolves outside of merging (expand_exports / expand_wildcards) is not this property",
@@ -80,6 +85,10 @@ ASSUMPTIONS = ["the alias monitor's window is the dynamic extent of merge_stubs 
                "everything else (declared members of the scope, of its base classes, of other modules) is",
                "objects of pkg._impl that a runtime import with same-named non-import stubs points at are not judged (merge "
                "into the alias target); every other member of pkg._impl is",
+               "the `overloads` dict of a runtime scope is compared without the names the stubs declare by overloads only "
+               "(whether those land there is not decided); empty lists the visitor leaves behind are ignored",
+               "the merge monitor counts merge_stubs calls per module path during a load; 'merged twice' in the classifier of "
+               "C19-second-merge-empties-overloads-of-stub-only-class is that observation (or the explicit second API call)",
                "the inheritance counters use the oracle's own reading of the sources (Python scoping of base expressions); "
                "verdicts never depend on them",
                "flags of the children of a stub-only class (runtime=True/False) are not judged, only the member itself"]
@@ -230,6 +239,7 @@ def gen_scope(rng: random.Random, depth: int, in_class: bool, sides: str = "RS",
             r_m = gen_func(rng, "R", name, in_class)
             if rng.random() < 0.1:
                 gen_overloads(rng, "R", r_m, in_class)
+                r_m["impl"] = rng.random() < 0.7       # a runtime function that exists as @overload signatures only
         elif rk == "alias":
             r_m = gen_alias(rng, name)
         if sk == "attr":
@@ -548,11 +558,34 @@ class Judge:
         self.doc(path, g, r["doc"], s["doc"] if s else None)
 
     # -- containers --------------------------------------------------------------------------
+    def overload_dict(self, path: str, g, r: dict, s: dict, stub_side_only: bool) -> None:  # noqa: ANN001
+        """The ``overloads`` dict of a module / class: functions of this scope that exist as @overload signatures only.
+        A scope that comes from the stubs alone must show exactly what the stub source says; a runtime scope keeps its own
+        entries (names the stubs declare by overloads only without a runtime member are not judged, see ASSUMPTIONS)."""
+        raw = g.overloads
+        if not isinstance(raw, dict):
+            self.bad("overloads-dict-malformed", path, "the overloads of a module / class is not a dict", type(raw).__name__, "dict")
+            return
+        open_names = set() if stub_side_only else set(s["overload_only"])
+        got = {n: self.sigs(v) for n, v in raw.items() if v and n not in open_names}       # the visitor leaves empty lists behind
+        want = {n: v for n, v in r["overload_only"].items() if n not in open_names}
+        if stub_side_only:
+            self.rec.count("stub_only_scopes_overload_dict_checked")
+            self.rec.count("stub_only_overload_only_functions_checked", len(want))
+            if got != want:
+                self.bad("stub-only-overloads-lost", path, "stub-only class: its @overload-only functions differ from the stub source",
+                         got, want)
+        else:
+            self.rec.count("runtime_overload_only_functions_checked", len(want))
+            if got != want:
+                self.bad("runtime-overloads-dict-changed", path, "the @overload-only functions of the runtime scope changed", got, want)
+
     def container(self, path: str, g, r: dict, s: dict, stub_side_only: bool = False,  # noqa: ANN001, C901, PLR0912
                   ignore: frozenset = frozenset()) -> None:
         """g: merged module/class; r: runtime scope; s: stub scope (EMPTY when nothing is merged); ignore: member names of
         this level that are not judged (on either side)."""
         self.doc(path, g, r["doc"], s["doc"])
+        self.overload_dict(path, g, r, s, stub_side_only)
         if ignore:
             r = dict(r, members={n: m for n, m in r["members"].items() if n not in ignore})
         members = {n: m for n, m in g.members.items() if n not in ignore and
@@ -685,7 +718,10 @@ def install_alias_monitor() -> None:
         finally:
             _DEPTH -= 1
             if _WINDOW is not None and _DEPTH == 0:
-                _MERGES.append(1)
+                try:
+                    _MERGES.append(str(mod1.path))
+                except Exception:  # noqa: BLE001
+                    _MERGES.append("?")
 
     # merge_stubs is captured by name in the loader and in set_member's module: replace every reference
     for mod in (gm, gl, gx):
@@ -792,14 +828,18 @@ def merge_api(src: dict, name: str, rkey: str, skey: str, order: int):  # noqa: 
     rt = griffe.visit(name, filepath=Path(f"/nonexistent-vf/{name}.py"), code=src[rkey], modules_collection=coll, lines_collection=lines)
     coll[name] = rt
     st = griffe.visit(name, filepath=Path(f"/nonexistent-vf/{name}.pyi"), code=src[skey], modules_collection=coll, lines_collection=lines)
-    merged = merge_stubs(st, rt) if order else merge_stubs(rt, st)
-    if merged is not rt:
-        raise AssertionError("merge_stubs did not return the regular module")
-    return merged
+    def merge():  # noqa: ANN202
+        merged = merge_stubs(st, rt) if order else merge_stubs(rt, st)
+        if merged is not rt:
+            raise AssertionError("merge_stubs did not return the regular module")
+        return merged
+
+    return merge(), merge
 
 
 # ------------------------------------------------------------------------------------------
-FINDINGS = ["C19-stub-overloads-on-unresolvable-import-abort-merge", "C19-overloads-of-implemented-stub-function-not-merged"]
+FINDINGS = ["C19-stub-overloads-on-unresolvable-import-abort-merge", "C19-overloads-of-implemented-stub-function-not-merged",
+            "C19-second-merge-empties-overloads-of-stub-only-class", "C19-stub-overloads-replace-overloads-dict-of-runtime-class"]
 
 
 ABORT_FALLOUT = {"runtime-module-lost", "annotation-not-from-stubs", "docstring-not-filled", "stub-only-member-missing",
@@ -829,6 +869,22 @@ def _scope_at(scope: dict, rel: list[str]) -> dict | None:
 
 def classify(problem: dict, r: dict, s: dict, placement: str, module_path: str) -> str | None:
     """Mechanism classifiers for known findings (see known_findings.d/C19.json)."""
+    # C19-second-merge-empties-overloads-of-stub-only-class: the (runtime, stubs) pair of this module went through merge_stubs
+    # twice (observed by the merge monitor: the loader does that for a top-level module; or the API was called twice); the
+    # first pass moved the stub-only class object into the runtime tree, the second pass merges that object with itself and
+    # _merge_stubs_overloads deletes every entry of its overloads dict: the class has @overload-only functions in the stub source
+    # and shows none at all.  A partial loss, a loss after a single merge, or any other difference is not this finding.
+    # C19-stub-overloads-replace-overloads-dict-of-runtime-class: kind mismatch - the stubs declare a name by @overload signatures
+    # only, the runtime member of that name in the merged scope is a class; `obj.get_member(name).overloads = [...]` replaces
+    # the class's own overloads *dict* by the stub's list
+    if problem["kind"] == "overloads-dict-malformed" and problem["observed"] == "list":
+        rel = problem["path"][len(module_path) + 1:].split(".")
+        rs, ss = _scope_at(r, rel[:-1]), _scope_at(s, rel[:-1])
+        if rs and ss and rs["members"].get(rel[-1], {}).get("kind") == "class" and rel[-1] in ss["overload_only"]:
+            return FINDINGS[3]
+    if problem["kind"] == "stub-only-overloads-lost" and problem.get("merged_twice") and problem["observed"] == {} \
+            and problem["expected"]:
+        return FINDINGS[2]
     # C19-overloads-of-implemented-stub-function-not-merged: the stub function of the same name has @overload signatures *and*
     # an implementation signature; the merged function kept the runtime's overload list
     if problem["kind"] == "overloads-not-from-stubs":
@@ -880,10 +936,11 @@ def run_case(rec, case: dict) -> None:  # noqa: ANN001, C901, PLR0912, PLR0915
                 for order in (0, 1):
                     _WINDOW = []
                     del _MERGES[:]
+                    redo = None
                     try:
                         if placement == "api":
                             pair = next(p for p in pairs if p[0] == target)
-                            top = merge_api(src, target, pair[1], pair[2], order)
+                            top, redo = merge_api(src, target, pair[1], pair[2], order)
                         else:
                             top, _loader = load_once(placement, root, order, target)
                     except Exception as exc:  # noqa: BLE001
@@ -906,6 +963,11 @@ def run_case(rec, case: dict) -> None:  # noqa: ANN001, C901, PLR0912, PLR0915
                     for dotted, rk, sk in these:
                         allowed |= allowed_resolutions(dotted, parsed[rk], parsed[sk])
                     rec.count("merge_stubs_calls_in_window", len(_MERGES))
+                    # modules whose (runtime, stubs) pair went through merge_stubs more than once during this load (the loader
+                    # does that for a top-level module: set_member of the collection, then _load_package)
+                    twice = {m for m in _MERGES if _MERGES.count(m) >= 2}
+                    if placement != "api":
+                        rec.count("modules_merged_twice_by_loader", len(twice))
                     del _MERGES[:]
                     for path, stub_side, target_path, flipped in window:
                         rec.count("aliases_state_checked")
@@ -923,24 +985,30 @@ def run_case(rec, case: dict) -> None:  # noqa: ANN001, C901, PLR0912, PLR0915
                         if stub_side and placement == "api" and _resolved:
                             judge.bad("stub-alias-resolved", path, f"(order {order}) stub-side import resolved after merge_stubs",
                                       True, False)
-                    for dotted, rk, sk in these:
-                        before = len(judge.problems)
-                        g = top
-                        if dotted != top.path:
-                            g = top.members.get(dotted.split(".", 1)[1])
-                        if g is None or g.is_alias or not g.is_module or (dotted == top.path and str(g.filepath).endswith(".pyi")) \
-                                or (g is not top and str(g.filepath).endswith(".pyi")):
-                            judge.bad("runtime-module-lost", dotted, f"(order {order}) the merged module is missing from the tree or "
-                                      "is the stubs module", None if g is None else str(g.filepath), "the runtime module")
-                        else:
-                            try:
-                                judge.container(dotted, g, parsed[rk], parsed[sk])
-                            except Exception as exc:  # noqa: BLE001
-                                judge.bad("malformed-tree", dotted, f"(order {order}) the merged tree cannot be read: "
-                                          f"{type(exc).__name__}: {exc}"[:300], None, "a well-formed tree")
-                        for p in judge.problems[before:]:
-                            p["order"] = order
-                            p["pair"] = [rk, sk]
+                    def judge_pairs(second_pass: bool = False) -> None:
+                        for dotted, rk, sk in these:
+                            before = len(judge.problems)
+                            g = top
+                            if dotted != top.path:
+                                g = top.members.get(dotted.split(".", 1)[1])
+                            if g is None or g.is_alias or not g.is_module or (dotted == top.path and str(g.filepath).endswith(".pyi")) \
+                                    or (g is not top and str(g.filepath).endswith(".pyi")):
+                                judge.bad("runtime-module-lost", dotted, f"(order {order}) the merged module is missing from the tree "
+                                          "or is the stubs module", None if g is None else str(g.filepath), "the runtime module")
+                            else:
+                                try:
+                                    judge.container(dotted, g, parsed[rk], parsed[sk])
+                                except Exception as exc:  # noqa: BLE001
+                                    judge.bad("malformed-tree", dotted, f"(order {order}) the merged tree cannot be read: "
+                                              f"{type(exc).__name__}: {exc}"[:300], None, "a well-formed tree")
+                            for p in judge.problems[before:]:
+                                p["order"] = order
+                                p["pair"] = [rk, sk]
+                                p["merged_twice"] = second_pass or dotted in twice
+                                if second_pass:
+                                    p["what"] = "(after merging the same pair a second time) " + p["what"]
+
+                    judge_pairs()
                     if impl_loaded:
                         # the bystander: nobody writes stubs for pkg._impl, so merging the pairs must leave it exactly as its
                         # source says - except the objects a runtime import with same-named stubs points at (merge into the
@@ -966,6 +1034,25 @@ def run_case(rec, case: dict) -> None:  # noqa: ANN001, C901, PLR0912, PLR0915
                             p["order"] = order
                             p["pair"] = ["I", "-"]
                     dumps.append(top.as_json(full=False, sort_keys=True))
+                    if redo is not None:
+                        # idempotence: the loader merges the stubs of a top-level module twice; doing the same through the API
+                        # must leave a tree that still satisfies the whole expectation, and the same canonical JSON
+                        rec.count("api_second_merges_judged")
+                        before = len(judge.problems)
+                        try:
+                            redo()
+                        except Exception as exc:  # noqa: BLE001
+                            judge.bad("second-merge-raised", target, f"(order {order}) merging the same pair a second time raised",
+                                      f"{type(exc).__name__}: {exc}"[:300], "no exception")
+                        else:
+                            judge_pairs(second_pass=True)
+                            if top.as_json(full=False, sort_keys=True) != dumps[-1]:
+                                judge.bad("merge-not-idempotent", target, f"(order {order}) merging the same pair a second time "
+                                          "changes the canonical JSON", None, "identical canonical JSON")
+                        for p in judge.problems[before:]:
+                            p.setdefault("order", order)
+                            p.setdefault("pair", [pair[1], pair[2]])
+                            p.setdefault("merged_twice", True)
                 rec.count("orders_compared")
                 if dumps[0] != dumps[1]:
                     from vf.checks.c14 import _first_diff
